@@ -757,12 +757,19 @@ impl<'a> ParserState<'a> {
         if item_is_block {
             balance = 1;
         }
+        // position of the most recent /begin token that was seen on the level of the parent block
+        let mut begin_pos = startpos;
 
         loop {
             let token = self.get_token(context)?;
             let text = self.get_token_text(token);
             match token.ttype {
-                A2lTokenType::Begin => balance += 1,
+                A2lTokenType::Begin => {
+                    if balance == 0 {
+                        begin_pos = self.get_tokenpos() - 1;
+                    }
+                    balance += 1;
+                }
                 A2lTokenType::End => {
                     balance -= 1;
                     if balance == -1 {
@@ -794,8 +801,10 @@ impl<'a> ParserState<'a> {
                             let found = stoplist.iter().find(|entry| **entry == text);
                             if found.is_some() {
                                 // found a tag belonging to a different TaggedItem of the parent struct. Put the token back and let the parent handle it
-                                self.token_cursor.back();
                                 if balance == 1 {
+                                    // the tag follows a /begin, possibly with comments in between: go back to the /begin
+                                    self.set_tokenpos(begin_pos);
+                                } else {
                                     self.token_cursor.back();
                                 }
                                 break;
